@@ -29,8 +29,8 @@ from .. import exprs as E
 from .. import gen
 from .. import pymodel
 from .common import BIG_FORMS
-from .common import (Kept, as_params, as_t, as_x, build_both, compare_errors, dtype_probe, fd_jacobian, fl, freeze, mpf, mpf_s, net_oracle,
-                     spec_oracle, sym_vs_lean, vec_close)
+from .common import (NAMED_TRAPS, Kept, as_params, as_t, as_x, build_both, compare_errors, dtype_probe, fd_jacobian, fl, freeze, mpf, mpf_s, net_oracle,
+                     printer_check, spec_oracle, sym_vs_lean, vec_close, wide_tags)
 
 PROP = "C03"
 LEAN = {"module": "Pygom.Props.C03",
@@ -41,14 +41,20 @@ LEAN = {"module": "Pygom.Props.C03",
                      "Pygom.C03.gradJacobian_entry", "Pygom.C03.defined_odeEqnR",
                      "Pygom.C03.gradGrad_entry", "Pygom.C03.grad_grad_is_second_derivative"],
         "extra_modules": ["Pygom.Lemmas.Deriv"]}
-BUDGET = {"quick": {"models": 120}, "thorough": {"models": 2500}}
+BUDGET = {"quick": {"models": 120, "wide": 36}, "thorough": {"models": 2500, "wide": 600}}
 RULE = ("random model definitions as in C01 (events routed through the event= keyword so that event order is the declared order); "
         "3 exact points each (one integer valued with zero states) in varied container / dtype forms, away from singularities, results "
         "kept and re-judged after the later calls, parameter re-assignment / restoration, a permuted second instance built in stages and "
-        "evaluated alternately, a deep copy, the _T twins; non-trivial = some Jacobian entry and some gradient entry non-zero")
+        "evaluated alternately, a deep copy, the _T twins; non-trivial = some Jacobian entry and some gradient entry non-zero.  WIDE "
+        "input space (tag `wide`, a fixed number of cases per tier, see C01): magnitudes that DEPEND ON A STATE (rho*S, S/2, p*(1 - S/50), "
+        "S + 1: the product-rule term d(magnitude)/dx * rate is part of the Jacobian) and derived parameters that contain a state, "
+        "compound magnitudes of parameters, trap names (i, j, k, n, e, S, I, E, N, Q, O, C, beta/beta1, gamma, pi, exp, Max ...), numeric "
+        "constants and ** powers, the strings written as a user would (natural precedence, blanks, 1e-3 / 1/3 literals; printer checked "
+        "against Python's grammar), 8-9 states / 8-12 parameters / 8 events in some cases")
 ASSUMPTIONS = ["sympy.diff / Matrix.jacobian are translation-validated per model against the verified Expr.diff, not proved",
                "finite-difference oracle: central differences in 50-digit arithmetic (h=1e-15 first order, 1e-10 second order)"]
-TRUSTED = ["harness generator, printer and interpreter", "Lean driver JSON codec"]
+TRUSTED = ["harness generator, printer and interpreter", "Lean driver JSON codec",
+           "natural-precedence printer exprs.user_str (checked on every case it is used for against Python's own parser)"]
 
 H1 = mpf("1e-15")
 H2 = mpf("1e-10")
@@ -57,12 +63,26 @@ H2 = mpf("1e-10")
 N_POINTS = 3          # two rational points and one integer-valued point with zero states (handed over as ints / integer arrays)
 
 
-def make_cases(rng, tier, budget):
+def wide_options(r, i):
+    w = {"names": r.random() < 0.7, "mags": r.random() < 0.85, "state_mags": 0.5, "derived_states": 0.6 if r.random() < 0.6 else 0.0,
+         "consts": r.random() < 0.6, "syntax": r.random() < 0.85}
+    if i % 11 in (3, 6, 9):
+        w["size"] = {3: "many_states", 6: "many_params", 9: "many_events"}[i % 11]
+        w["size_max"] = {"many_states": 9, "many_params": 12, "many_events": 8}[w["size"]]     # pygom compiles nE x nE / nS^2 x nS matrices
+    return w
+
+
+def wide_cases(rng, n):
+    return make_cases(rng, None, {"models": n}, wide=True)
+
+
+def make_cases(rng, tier, budget, wide=False):
     from .common import gen_forms
     cases = []
     for i in range(budget["models"]):
         r = random.Random(rng.getrandbits(64))
-        spec, meta = gen.gen_model(r, min_events=1, routes=("event", "event_eq", "event_bare"))
+        w = wide_options(r, i) if wide else None
+        spec, meta = gen.gen_model(r, min_events=1, routes=("event", "event_eq", "event_bare"), wide=w)
         pts = [gen.rand_point(r, meta) for _ in range(N_POINTS - 1)] + [gen.rand_point(r, meta, integer=True, zeros=True)]
         big = gen.rand_point(r, meta, integer=True, big=True)
         perm = list(range(len(meta["params"])))
@@ -72,11 +92,18 @@ def make_cases(rng, tier, budget):
                  "sibling": {"state_rev": r.random() < 0.4, "param_perm": perm, "derived_bump": r.random() < 0.5,
                              "last_event_incremental": r.random() < 0.6}}
         cases.append({"spec": spec, "meta": meta, "points": [{k: str(v) for k, v in p.items()} for p in pts], "probe": probe})
+        if wide:
+            cases[-1]["wide"] = w
+    # drawn AFTER the classic cases: their random stream is what it was before the wide input space was added
+    wide_list = wide_cases(random.Random(rng.getrandbits(64)), budget["wide"]) if (not wide and budget.get("wide")) else []
+    step = max(1, len(cases) // max(1, len(wide_list)))
+    for k, c in enumerate(wide_list):            # the wide cases are spread over the run (the large ones are slow)
+        cases.insert(min(len(cases), k * (step + 1)), c)
     return cases
 
 
 def search_cases(rng, tier, budget):
-    return make_cases(rng, tier, {"models": budget["models"] * 3})
+    return make_cases(rng, tier, {"models": budget["models"] * 3, "wide": budget.get("wide", 0) * 3})
 
 
 def f_oracle(meta, spec, env):
@@ -178,7 +205,7 @@ class Session(object):
             self.model = pymodel.build(spec, upto=0)
             self.touch(touch_env, 0)
             for k in range(n_then):
-                pymodel.apply_then(self.model, spec["then"][k])
+                pymodel.apply_then(self.model, spec["then"][k], sx=spec.get("syntax"))
                 partner.touch(touch_env, None)
                 self.touch(touch_env, k + 1)
             for g in ("get_ode_eqn", "get_StateChangeMatrix", "get_EventRateVector", "get_pureOdeVector"):
@@ -242,6 +269,8 @@ class Session(object):
         self.nS, self.nP, self.nE = nS, nP, nE = len(states), len(params), len(lr["rates"])
         tags += ["nS=%d" % nS, "nP=%d" % nP, "nE=%d" % nE, "square" if nS == nP else "asymmetric"]
         for k in set(meta["kinds"]): tags.append("rate:" + k)
+        if self.case.get("wide") is not None and not self.who:
+            tags += wide_tags(spec, meta, self.case["wide"], NAMED_TRAPS)
         if not hasattr(model, "get_grad_grad_eqn") or not hasattr(model, "grad_grad"):
             # the modelled source has the evaluator (Model.gradGradEqn, since the repair of C20-hessian-mixed-terms)
             mism.append({"what": "evaluator missing: grad_grad", "detail": "the model has no get_grad_grad_eqn / grad_grad"})
@@ -447,6 +476,7 @@ def run_case(case):
     B = None
     ok = A.open()
     if ok:
+        printer_check(spec, pts[0], A.mism, A.tags)
         for k, env in enumerate(pts):
             ok = A.step(env, forms[k], "point%d" % k, symbolic=True)
             if not ok:
